@@ -193,7 +193,8 @@ theorem facts_guard :
     Gen.Facts.c14MaxConcurrent = some 3 ∧ Gen.Facts.c14QueryTimeoutMs = some 5000 ∧ Gen.Facts.c14ClampShape = some true ∧
     Gen.Facts.c14PickShape = some true ∧ Gen.Facts.c14PrivateCopyPerUpstream = some true ∧
     Gen.Facts.c14HelperShape = some true ∧ Gen.Facts.c14CollectShape = some true ∧ Gen.Facts.c14TagSubsets = some true ∧
-    Gen.Facts.c14UpstreamPerEntry = some true ∧ Gen.Facts.c14EntryOptions = some true := by decide
+    Gen.Facts.c14UpstreamPerEntry = some true ∧ Gen.Facts.c14EntryOptions = some true ∧
+    Gen.Facts.c14WrapperTransparent = some true := by decide
 
 /-- the instance the code runs: `maxConcurrentQueries` read from the source -/
 theorem forward_clamp (c : Int) : 1 ≤ clamp (Gen.Facts.c14MaxConcurrent.getD 0) c ∧ clamp (Gen.Facts.c14MaxConcurrent.getD 0) c ≤ 3 := by
@@ -250,6 +251,52 @@ theorem route_own_servers (targets : List Nat) (sub : Option (List Nat)) (conc :
       (contacted (Gen.Facts.c14MaxConcurrent.getD 0) (inUse u sub) conc r)[i]? =
         some ((inUse targets sub).getD ((r + i) % (inUse targets sub).length) 0) :=
   ⟨targets, forward_build targets, contacted_get _ _ conc r i hi⟩
+
+/-! ## every exchange of a helper is an exchange with the upstream of its position (the wrapper), whatever happened before -/
+
+/-- a wrapper without a gate hands every exchange to its upstream, whatever the earlier exchanges ended with -/
+theorem transparent_admits_all (b : Bool) : ∀ (hist : List Bool) (held : Nat),
+    ((Wrap.mk none b).run held hist).2 = hist.map (fun _ => true) := by
+  intro hist
+  induction hist with
+  | nil => intro held; rfl
+  | cons ok rest ih =>
+    intro held
+    simp only [Wrap.run, List.map_cons, List.cons.injEq, true_and]
+    exact ih _
+
+/-- a gate that always gives its slot back never holds one between exchanges ... -/
+theorem balanced_holds_nothing (n : Nat) : ∀ (hist : List Bool), ((Wrap.mk (some n) true).run 0 hist).1 = 0 := by
+  intro hist
+  induction hist with
+  | nil => rfl
+  | cons ok rest ih =>
+    simp only [Wrap.run, Bool.or_true, Bool.not_true, Bool.and_false]
+    exact ih
+
+/-- ... hence sequential exchanges through it are all handed over too (a cap on the exchanges in flight is harmless for C14) -/
+theorem balanced_admits_all (n : Nat) (hn : 0 < n) : ∀ (hist : List Bool),
+    ((Wrap.mk (some n) true).run 0 hist).2 = hist.map (fun _ => true) := by
+  intro hist
+  induction hist with
+  | nil => rfl
+  | cons ok rest ih =>
+    simp only [Wrap.run, Bool.or_true, Bool.not_true, Bool.and_false, List.map_cons, List.cons.injEq]
+    exact ⟨by simp [hn], ih⟩
+
+/-- **over the regenerated source**: on this run the wrapper is the gate-less one, so after any history of
+successes and failures (fault sequences of any length, on one Forward instance) the next exchange of a helper
+reaches the upstream of its position - `contacted` / `route_own_servers` describe every query of a session, not only
+the first one. Stops checking when `upstreamWrapper.ExchangeContext` is anything else than one unconditional call. -/
+theorem forward_wrapper_admits (hist : List Bool) :
+    ∃ w, wrapOf (Gen.Facts.c14WrapperTransparent.getD false) = some w ∧ (w.run 0 hist).2 = hist.map (fun _ => true) := by
+  have h : Gen.Facts.c14WrapperTransparent.getD false = true := by decide
+  rw [h]
+  exact ⟨⟨none, true⟩, rfl, transparent_admits_all true hist 0⟩
+
+/-- a gate that keeps the slot of a failed exchange is refuted: after `cap` failures nothing is sent any more -/
+theorem leaky_gate_is_refuted :
+    ((Wrap.mk (some 2) false).run 0 [false, true, false, true, true]).2 = [true, true, true, false, false] := by decide
 
 /-! ## the same statements over the regenerated step of the collection loop (T1) -/
 
